@@ -84,7 +84,10 @@ pub fn generate(rng: &mut Rng, tier: Tier, stats: &mut GenStats) -> Scenario {
             else {
                 unreachable!()
             };
-            if prefix_touches_link(&model, &w.base, expr, *rooted) || cycle_above_prefix(&model, &cand) {
+            // (when links are followed and the tree has no faulty link, a link on the prefix is just
+            // another followed link)
+            let prefix_link_ok = w.link == Link::ReadTarget && links == LinkMode::Safe;
+            if (!prefix_link_ok && prefix_touches_link(&model, &w.base, expr, *rooted)) || cycle_above_prefix(&model, &cand) {
                 stats.restricted += 1;
                 continue;
             }
